@@ -272,6 +272,22 @@ Proof.
   - destruct (exec f s e h o) as [[[e1 h1] o1] out1] eqn:E1.
     apply IH in E1; auto. destruct E1 as [C1 [W1 [L1 O1]]].
     destruct out1; inv H; simpl; repeat split; auto; apply wfe_cons; simpl; auto.
+  - (* STry *)
+    destruct (exec f s1 e h o) as [[[e1 h1] o1] out1] eqn:E1.
+    apply IH in E1; auto. destruct E1 as [C1 [W1 [L1 O1]]].
+    match type of H with (match ?r with _ => _ end) = _ => destruct r as [[[e2 h2] o2] out2] eqn:E2 end.
+    assert (X2 : closed h2 /\ wfe (length h2) e2 /\ length h1 <= length h2 /\ wf_out (length h2) out2).
+    { destruct out1; try (inv E2; repeat split; auto; fail); apply IH in E2; auto. }
+    destruct X2 as [C2 [W2 [L2 O2]]].
+    assert (G : forall e3 h3 o3 out3, exec f s4 e2 h2 o2 = ((e3, h3, o3), out3) ->
+                closed h3 /\ wfe (length h3) e3 /\ length h <= length h3 /\ wf_out (length h3) out3 /\
+                wf_out (length h3) out2).
+    { intros e3 h3 o3 out3 E3. apply IH in E3; auto. destruct E3 as [C3 [W3 [L3 O3]]].
+      repeat split; auto; try lia. destruct out2; simpl in *; auto. eapply wfv_mono; eauto. }
+    destruct (exec f s4 e2 h2 o2) as [[[e3 h3] o3] out3] eqn:E3.
+    destruct (G _ _ _ _ eq_refl) as [C3 [W3 [L3 [O3 O2']]]].
+    destruct out2; try (inv H; simpl; repeat split; auto; lia);
+      destruct out3; inv H; simpl; repeat split; auto.
   - inv H. simpl. auto.
   - dm H; inv H; simpl; auto. repeat split; auto. eapply eval_atom_wf; eauto.
   - inv H. simpl. auto.
@@ -496,6 +512,22 @@ Section Discipline.
       destruct (exec f s e h o) as [[[e1 h1] o1] out1] eqn:E1.
       pose proof (IH s _ _ _ _ _ _ _ (conj SBb SM) I E1) as I1.
       destruct out1; inv H; auto; apply inv_bind_other; auto.
+    - (* STry *)
+      simpl in SB, SM.
+      apply incl_app_inv in SB. destruct SB as [SB1 SB]. apply incl_app_inv in SB. destruct SB as [SB2 SB].
+      apply incl_app_inv in SB. destruct SB as [SB3 SB4].
+      apply incl_app_inv in SM. destruct SM as [SM1 SM]. apply incl_app_inv in SM. destruct SM as [SM2 SM].
+      apply incl_app_inv in SM. destruct SM as [SM3 SM4].
+      destruct (exec f s1 e h o) as [[[e1 h1] o1] out1] eqn:E1.
+      pose proof (IH s1 _ _ _ _ _ _ _ (conj SB1 SM1) I E1) as I1.
+      match type of H with (match ?r with _ => _ end) = _ => destruct r as [[[e2 h2] o2] out2] eqn:E2 end.
+      assert (I2 : Inv P n0 h0 e2 h2).
+      { destruct out1; try (inv E2; auto; fail).
+        - exact (IH s3 _ _ _ _ _ _ _ (conj SB3 SM3) I1 E2).
+        - exact (IH s2 _ _ _ _ _ _ _ (conj SB2 SM2) I1 E2). }
+      destruct (exec f s4 e2 h2 o2) as [[[e3 h3] o3] out3] eqn:E3.
+      pose proof (IH s4 _ _ _ _ _ _ _ (conj SB4 SM4) I2 E3) as I3.
+      destruct out2; try (inv H; auto; fail); destruct out3; inv H; auto.
     - inv H. auto.
     - dm H; inv H; auto.
     - inv H. auto.
